@@ -234,18 +234,9 @@ PARAM_WRITABLE = "derive-sources-leaves-parameter-output-writable"
 
 
 def report_finding(run: Run, sig: str, what: str, replay: dict) -> None:
-    """a defect found by this check.  Once known_findings.json has an entry with this signature the usual semantics
-    apply (open: KNOWN-FINDING line; fixed: a re-occurrence is a VIOLATION).  Until the lead has entered it, it is
-    printed as PENDING-FINDING and recorded in the evidence (the fix proposal is under /var/tmp/fixes/C16-…)."""
-    from harness.common import load_known
-    if any(k.get("property") == PID and k.get("signature") == sig for k in load_known()):
-        run.report(sig, what, replay)
-        return
-    line = f"PENDING-FINDING: property={PID} {sig}: {what}"
-    pend = run.coverage.setdefault("pending_findings", [])
-    if line not in pend:
-        pend.append(line)
-        print(line, flush=True)
+    """a defect class with an entry in known_findings.json (open: KNOWN-FINDING line; fixed: a re-occurrence is a
+    VIOLATION; no entry: a VIOLATION)"""
+    run.report(sig, what, replay)
 
 
 def classify(verdict: int, node: Optional[list], assigned: set) -> Optional[str]:
